@@ -103,7 +103,7 @@ ArgsOf(e) ==
       [] e.op = "Store"   -> [h |-> e.h]
       [] e.op = "Load"    -> [buf |-> e.buf]
       [] e.op = "Crypt"   -> [h |-> e.h, pw |-> e.pw, len |-> e.len]
-      [] e.op = "Keygen"  -> [h |-> e.h, coin |-> e.coin, size |-> e.size]
+      [] e.op = "Keygen"  -> [h |-> e.h, coin |-> e.coin, size |-> e.size, size_mid |-> e.size_mid, size_hi |-> e.size_hi]
       [] e.op = "Birthday" -> [h |-> e.h]
       [] e.op = "Feature" -> [h |-> e.h, lo |-> e.lo, hi |-> e.hi]
       [] e.op = "IsEncrypted" -> [h |-> e.h]
